@@ -33,6 +33,9 @@ GRID = [0, 7, 8, 9, 126, 127, 128, 129, 1023, 1024, 1025, 16383, 16384, 16385, 6
 NRANDOM = {'quick': 0, 'thorough': 3000}
 
 
+OPTIMIZED_SAMPLE = 1     # the first shard once more under python -O (vf/runner.py)
+
+
 def exhaustive(tier):
     return False
 
